@@ -277,10 +277,33 @@ def b_dict(I, a, k, node):
 
 
 def b_iter(I, a, k, node):
+    from sa.values import AIter
     v = a[0]
+    if isinstance(v, AIter):
+        return v
+    definite = (isinstance(v, tuple) and not (v and isinstance(v[0], str) and v[0] in ('items', 'super'))) or \
+        (isinstance(v, AList) and not v.unknown) or isinstance(v, AObj) or \
+        (is_concrete(v) and isinstance(concrete(v), (tuple, list)))
+    if definite:
+        return AIter(M.iterate(I, v, node))
     if isinstance(v, (AList, ADict, tuple)):
         return v
     return Unk('iter', kinds=['obj'], taint=tj(v), src=('iter-of', v))
+
+
+def b_next(I, a, k, node):
+    from sa.values import AIter
+    it = a[0]
+    if isinstance(it, AIter):
+        if it.pos < len(it.items):
+            it.pos += 1
+            return it.items[it.pos - 1]
+        if len(a) > 1:
+            return a[1]
+        _raise(I, node, 'StopIteration', 'iterator exhausted')
+    if len(a) < 2:
+        I.may_raise(node, ['StopIteration'], 'next() on an iterator of unknown length', (it,))
+    return Unk('next', taint=tj(it), src=('call', 'next', a))
 
 
 def b_minmax(I, a, k, node):
@@ -520,7 +543,7 @@ def b_any(I, a, k, node):
 GLOBALS = {
     'len': b_len, 'isinstance': b_isinstance, 'type': b_type, 'int': b_int, 'str': b_str,
     'repr': b_repr, 'sorted': b_sorted, 'range': b_range, 'enumerate': b_enumerate, 'dict': b_dict,
-    'iter': b_iter, 'min': b_minmax, 'max': b_minmax, 'getattr': b_getattr, 'setattr': b_setattr,
+    'iter': b_iter, 'next': b_next, 'min': b_minmax, 'max': b_minmax, 'getattr': b_getattr, 'setattr': b_setattr,
     'super': b_super, 'bool': b_bool, 'list': b_list, 'tuple': b_tuple, 'hasattr': b_hasattr,
     'sum': b_sum, 'any': b_any, 'all': b_any, 'print': b_print,
     'json.loads': b_json_loads, 'json.dumps': b_json_dumps, 're.compile': b_re_compile,
